@@ -123,6 +123,7 @@ func C01(tier string) {
 	batches := toBatches(chains, 45)
 	outs := ProcessBatches(run, "b", batches, opts)
 	finishChains(run, outs, opts, nil, "")
+	secondSourcePhase(run, links, tier)
 	run.Assumptions = append(run.Assumptions,
 		"Go compiler/runtime correct; end-point functions of package vprog/rt differ between analysed (stub) and executed (native) builds only in bodies that are irrelevant by specification",
 		"marker substring observed in memory reachable from the sink argument => explicit data flow from that source call",
@@ -287,4 +288,70 @@ func minimizeCrash(run *core.Run, chains []gen.Chain, opts ChainOpts, tag string
 		}
 	}
 	return cur
+}
+
+// secondSourcePhase: every chain gets a second, independent source reaching the same sink call, and the
+// specification is split into two taint-tracking problems sharing the sinks. Both observed pairs must be reported.
+func secondSourcePhase(run *core.Run, links []string, tier string) {
+	known := run.KnownSigs()
+	var chains []gen.Chain
+	id := 1
+	for _, l := range links {
+		if known[l] || known[l+">*"] {
+			continue
+		}
+		chains = append(chains, gen.Chain{ID: id, Links: []string{l}})
+		id++
+		if tier != "thorough" && id > 60 {
+			break
+		}
+	}
+	var batches []*gen.Batch
+	for i := 0; i < len(chains); i += 30 {
+		j := i + 30
+		if j > len(chains) {
+			j = len(chains)
+		}
+		batches = append(batches, &gen.Batch{Chains: chains[i:j], SecondSource: true})
+	}
+	opts := ChainOpts{Cfgs: []ChainCfg{{Name: "2p-eager", Rewrites: true, TwoProblems: true}, {Name: "2p-ondemand", OnDemand: true, Rewrites: true, TwoProblems: true}}, Repeat: 1}
+	outs := ProcessBatches(run, "two", batches, opts)
+	checked := 0
+	for _, o := range outs {
+		if o.Status != "ok" {
+			run.Inconclusive("second-source batch: " + o.Status + " " + firstLine(o.Detail))
+			continue
+		}
+		for _, ch := range o.Batch.Chains {
+			if _, w := o.Waived[ch.ID]; w {
+				continue
+			}
+			p1, p2 := Pair{ch.ID, ch.ID}, Pair{gen.SecondSourceBase + ch.ID, ch.ID}
+			_, ob1 := o.Observed[p1]
+			_, ob2 := o.Observed[p2]
+			if !ob1 || !ob2 {
+				continue
+			}
+			for _, c := range opts.Cfgs {
+				reps := o.Reported[c.Name]
+				if len(reps) == 0 {
+					continue
+				}
+				checked++
+				r1, r2 := reps[0][p1], reps[0][p2]
+				if r1 && r2 {
+					continue
+				}
+				if !r1 && !r2 {
+					continue // the link itself fails here: that is the main phase's business
+				}
+				sig := "one-of-two-sources-lost@" + c.Name
+				if run.IsKnown(sig) {
+					continue
+				}
+				run.Violation(sig, fmt.Sprintf("chain %v with two independent sources reaching the same sink call, two taint-tracking problems sharing the sink (%s): both flows observed natively, reported: first source %v, second source %v", ch.Links, c.Name, r1, r2), copyFiles(o))
+			}
+		}
+	}
+	run.Cov["two_problem_obligations_checked"] = checked
 }
